@@ -69,7 +69,10 @@ struct Harness {
 	std::unique_ptr<State> clone(const State& s)
 	{
 		if constexpr (std::is_same<R, Stream::MemoryReader>::value) {
-			auto c = std::make_unique<State>(); c->r = std::make_unique<R>(*s.r); c->mpos = s.mpos; return c;
+			// a copy over the same buffer, put at the position the original has (where a copy starts is not this property's subject)
+			auto c = std::make_unique<State>(); c->r = std::make_unique<R>(*s.r); c->mpos = s.mpos;
+			try { c->r->Seek(s.r->Position()); } catch (const std::exception&) { return nullptr; }
+			return c;
 		}
 		else return nullptr;
 	}
@@ -225,7 +228,9 @@ struct Harness {
 		case kReadPartial: {
 			uint64_t k = op.a;
 			uint64_t expect = k < rem ? k : rem;
-			std::size_t bl = std::size_t(expect > 64 ? expect : (k < 64 ? k : 64));   // room for everything that may legitimately be delivered
+			// the buffer has the requested size wherever that can be allocated (a reader may touch all of it); for requests near the
+			// integer limits it has room for everything that may legitimately be delivered
+			std::size_t bl = k <= (1u << 20) ? std::size_t(k) : std::size_t(expect > 64 ? expect : 64);
 			std::unique_ptr<uint8_t[]> buf(new uint8_t[bl ? bl : 1]);
 			std::size_t got = r.ReadPartial(buf.get(), std::size_t(k));
 			clauseHit(k > rem ? "readpartial/short" : "readpartial/full");
